@@ -539,6 +539,11 @@ Value(goal, c) == Outcome(goal, c).val
 Expected(goal, c) == LET o == Outcome(goal, c) IN
                      IF o.kind = "ok" /\ "val" \in DOMAIN o THEN [kind |-> "ok", val |-> o.val] ELSE [kind |-> o.kind]
 
+\* does an observed outcome agree with what the specification expects? (unasserted: any orderly outcome)
+Agrees(x, out) == IF x.kind = "any" THEN out.kind \in {"ok", "range", "type", "syntax"}
+                  ELSE IF "val" \in DOMAIN x THEN out = x
+                  ELSE out.kind = x.kind
+
 \* feature label of a string the specification ACCEPTS (used in class labels when the implementation disagrees)
 Feature(goal, c) ==
   IF goal \in {"UtcOffset", "TimeZoneId", "MonthCode"} THEN "accepted"
@@ -552,6 +557,7 @@ Feature(goal, c) ==
     ELSE IF R.tz.k = "name" /\ \A k \in 1..Len(R.tz.id) : R.tz.id[k] \in AKeyChar THEN "time-zone-name-of-annotation-key-characters"
     ELSE IF R.k1 THEN "annotation-key-of-one-character"
     ELSE IF R.v1 THEN "annotation-value-of-one-character"
+    ELSE IF goal = "ZonedDateTime" /\ R.off.k = "z" THEN "utc-designator-with-time-zone-annotation"
     ELSE IF goal = "ZonedDateTime" /\ R.off.k = "num" /\ R.off.m # 0 THEN "offset-with-non-zero-minutes"
     ELSE IF goal = "ZonedDateTime" /\ R.off.k = "num" /\ R.off.sub THEN "offset-with-seconds"
     ELSE IF R.time.has /\ R.time.s = 60 THEN "second-60"
